@@ -6,7 +6,8 @@ import shutil
 
 from common import (CACHE, DISCHARGED, FAILED, REPLAYS, REPO, UNDECIDED, VERIF, Ob, log, run)
 
-PLAYBACK_DIR = os.path.join(CACHE, 'playback')
+# fixed location: the proof modules include these files by absolute path
+PLAYBACK_DIR = os.path.join(VERIF, '.cache', 'playback')
 PLAYBACK_FILES = ('root.rs', 'webauthn.rs', 'arbitrary.rs')
 
 
